@@ -26,7 +26,8 @@ ALSO = {"C08a": ["C12"], "C10a": ["C12"], "C11b": ["C12"], "C12a": ["C08"], "C12
         "C09g": ["C08"], "C08g": ["C09"], "C07h": ["C06"], "C01i": ["C11", "C12"], "C04h": ["C18"], "C16j": ["C13"],
         "C11i": ["C12"], "C15i": ["C12"], "C06h": ["C12"], "C12j": ["C06", "C07"], "C17j": ["C16"], "C03i": ["C01", "C12"],
         "C09h": ["C08"], "C07i": ["C06"], "C13i": ["C01", "C18", "C20"], "C18i": ["C04"], "C01j": ["C13", "C18"],
-        "C12k": ["C05"], "C05j": ["C03"], "C20j": ["C18"], "C03j": ["C05"]}
+        "C12k": ["C05"], "C05j": ["C03"], "C20j": ["C18"], "C03j": ["C05"],
+        "C19j": ["C15"], "C13j": ["C01", "C12", "C03"], "C18j": ["C03"], "C06j": ["C07"]}
 
 
 def run(sid, all_checks=False):
